@@ -36,7 +36,7 @@ SHIELD = {"engines": [chain("shield", 128, 1280, ops=160, tops=240), EXPORT],
 PROPS = {
     "C02": dict(SHIELD, lean=["Shentu.Props.C02", "Shentu.Props.C04b", "Shentu.Props.ShieldTie"], engines=SHIELD["engines"] + [chain("payout", 64, 640, ops=120, tops=200)]),
     "C03": dict(SHIELD, lean=["Shentu.Props.C03a", "Shentu.Props.C03b", "Shentu.Props.ShieldTie"]),
-    "C04": dict(SHIELD, lean=["Shentu.Props.C04", "Shentu.Props.C04b", "Shentu.Props.ShieldTie"],
+    "C04": dict(SHIELD, lean=["Shentu.Props.C04", "Shentu.Props.C04b", "Shentu.Props.C04c", "Shentu.Props.ShieldTie"],
                 engines=SHIELD["engines"] + [chain("payout", 64, 640, ops=120, tops=200)],
                 assumptions=SHIELD["assumptions"] + [
         "'taken from its bonded or unbonding stake': in the shield model the coins move from the staking pools in one step; how the code takes them (split, pro-rata loop, shares rounded up, unbonding entries) is Model/Payout.lean, run against the real keeper's MakePayoutByProviderDelegations by the engine 'payout' on states reached by shield histories, after random slashes and undelegations in a discarded cache context"]),
@@ -45,7 +45,7 @@ PROPS = {
         "the converse (a funded purchase meeting the conditions is accepted) is proved for purchases whose fee or stake does not truncate to zero (amount x rate >= 1 unit); with the default minimum purchase of 50 CTK this always holds; below it the module answers ErrNoShield"]),
     "C07": dict(SHIELD, lean=["Shentu.Props.C07", "Shentu.Props.ShieldTie"]),
     "C08": {
-        "lean": ["Shentu.Props.C08", "Shentu.Props.C04b"],
+        "lean": ["Shentu.Props.C08", "Shentu.Props.C04b", "Shentu.Props.C04c"],
         "engines": [chain("shield", 96, 960, ops=240, tops=400), chain("oracle", 48, 480, ops=120), chain("gov", 48, 480, ops=120), chain("staking", 32, 320, ops=150), chain("bankvm", 32, 320, ops=100)],
         "trusted": SDK_TRUST + ["a panic inside BeginBlock/EndBlock of the real application is caught by the harness (recover) and reported with its site; the begin/end-blockers of SDK modules (distribution, mint, slashing, staking) run for real in every history but are not modelled",
                                 "in the models a Go panic is the error value built by `panicE`; the theorems show that the modelled block-level functions return no error on states satisfying invariants that are proved to be preserved by every operation"],
